@@ -1,7 +1,7 @@
 (* Correspondence checker for the multiplexed operators: the slot-level machine bm (den_pipe p)
    is run on the trace the implementation was run on; outputs are compared step by step. *)
 From Coq Require Import List ZArith Bool.
-From RxVerif Require Import Base.Corr Mux.Val Mux.Sim Mux.SimExt Mux.Ops Mux.Syntax Mux.Plain.
+From RxVerif Require Import Base.Corr Mux.Val Mux.Sim Mux.SimExt Mux.Ops Mux.Syntax Mux.Plain Mux.Boundaries.
 Import ListNotations.
 
 Inductive oev :=
@@ -29,6 +29,10 @@ Inductive muxcase :=
 | MC (p : list op) (t : list iev) (out : list (list oev))
 (* the same pipeline on plain observables: (items, what the plain run emitted before completing) *)
 | MCPlain (p : list op) (runs : list (list val * list val))
+(* every inner boundary: what the recording taps saw, in tap order (Boundaries.bnd_pipe);
+   mask drops the boundaries inside the expansion of a derived operator (mean = scan ; map), which
+   the real code, having one operator there, cannot tap *)
+| MCBnd (p : list op) (t : list iev) (mask : list bool) (taps : list (list oev))
 | MCAnd (a b : muxcase).
 Definition mux_model (p : list op) (t : list iev) : list (list oev) := map (map norm) (run_pipe p t).
 Definition plain_agrees (p : list op) (r : list val * list val) : bool :=
@@ -36,11 +40,18 @@ Definition plain_agrees (p : list op) (r : list val * list val) : bool :=
   | Some ys => list_eqb val_same ys (snd r)
   | None => true          (* outside the modelled plain fragment, or the model says on_error *)
   end.
+Fixpoint keep {A} (mask : list bool) (l : list A) : list A :=
+  match mask, l with
+  | true :: m, x :: l' => x :: keep m l'
+  | false :: m, _ :: l' => keep m l'
+  | _, _ => l
+  end.
 Fixpoint mux_check (c : muxcase) : bool :=
   match c with
   | MCRaised => false
   | MCSkip => true
   | MC p t out => list_eqb (list_eqb oev_same) (mux_model p t) out
   | MCPlain p runs => forallb (plain_agrees p) runs
+  | MCBnd p t mask taps => list_eqb (list_eqb oev_same) (keep mask (map (map norm) (bnd_pipe p t))) taps
   | MCAnd a b => mux_check a && mux_check b
   end.
